@@ -34,6 +34,9 @@ def run(ctx):
     rep.rule("C29.R2", "global solution arrays are indexed with the matching global DOF set first", 25)
     rep.rule("C29.R3", "kinematic calls of an export use sol_i.t", 20)
     rep.rule("C29.R4", "uniform stride in __prepare_data", 1)
+    rep.rule("C29.R7", "exported orientations come from the normalising rotation kernel (stored quaternions of ScipyIVP / ScipyDAE solutions are not unit)", 4)
+    from .c11 import normalising_rule
+    normalising_rule(ctx, "C29.R7", lambda rel: rel == "cardillo/discrete/rigid_body.py", 4)
     rep.rule("C29.R6", "an exported point and the velocity written for it name the same material point (same body-fixed offset attributes)", 4)
     rep.rule("C29.R5", "the exported solution is a pure row selection of the solver's solution (no arithmetic on time or state); nobody rewrites it", 3)
     r1(ctx)
@@ -498,6 +501,10 @@ MUTANTS += [
          old="            self.__write_time_step_and_name(sol_i.t, file_i)\n", new="            sol_i.t = sol_i.t * 1.0e3\n            self.__write_time_step_and_name(sol_i.t, file_i)\n", expect="C29.R5"),
     dict(id="c29-r6-orig", canary=True, what="Sphere2Plane.export: contact point velocity without the sphere centre offset (original defect)", file="cardillo/contacts/sphere2plane.py",
          old="                    self.B_r_CP + A_IB1.T @ r_PC1,", new="                    A_IB1.T @ r_PC1,", expect="C29.R6"),
+]
+MUTANTS += [
+    dict(id="c29-r7-seed", canary=True, what="[seeded by sub-agent] RigidBody.export builds the rotation matrix without normalising the stored quaternion", file=RB,
+         old="        ex, ey, ez = self.A_IB(sol_i.t, sol_i.q[self.qDOF]).T", new="        ex, ey, ez = Exp_SO3_quat(sol_i.q[self.qDOF][3:], normalize=False).T", expect="C29.R7"),
 ]
 NEUTRAL = [
     dict(id="c29-n1", canary=True, what="__prepare_data uses getattr instead of __getattribute__", file=VTK,
